@@ -252,8 +252,39 @@ func main() {
 		}
 	}
 
+	// (5) long inputs: lengths around powers of two and ten up to two million digits (formatting
+	// helpers, width limits, 16- and 20-bit length arithmetic), all digits, and with one non-digit
+	// at the first, middle and last position
+	longLengths := []int{255, 256, 257, 999, 1000, 1001, 4095, 4096, 4097, 65535, 65536, 65537, 99999, 100001, 999999, 1000000, 1000001, 1048575, 1048577, 2097153}
+	vk.Parallel(len(longLengths), func(k int) {
+		n := longLengths[k]
+		b := make([]byte, n)
+		for i := range b {
+			b[i] = '0' + byte((i*7+n)%10)
+		}
+		checkEncode(r, string(b))
+		for _, pos := range []int{0, n / 2, n - 1} {
+			orig := b[pos]
+			b[pos] = 'a'
+			checkEncode(r, string(b))
+			b[pos] = orig
+		}
+		raw := make([]byte, (n+1)/2)
+		for i := range raw {
+			raw[i] = spec.BCD2((i*13 + n) % 100)
+		}
+		checkDecode(r, raw)
+		for _, pos := range []int{0, len(raw) / 2, len(raw) - 1} {
+			orig := raw[pos]
+			raw[pos] = 0x1a
+			checkDecode(r, raw)
+			raw[pos] = orig
+		}
+	})
+	nontrivial += int64(len(longLengths) * 8)
+
 	r.Distinct(nontrivial)
-	r.Rule(fmt.Sprintf("histories (consecutive calls): every ordered pair of byte values at every position of slices of length 1..9 and 16 (two base patterns) for Decode, every ordered pair of symbols at every position of digit strings of length 1..17 for Encode - counted as evaluations only; every string of length 0..%d over {0..9,'a','é'}; every byte slice of length 0..2 and (thorough: all; quick: one byte fixed to a boundary value) length 3; every single (position,symbol) substitution into digit strings of length 1..32 and BCD slices of length 1..16; distinct = distinct inputs by construction", maxLen))
+	r.Rule(fmt.Sprintf("long inputs: digit strings / BCD slices of 20 lengths from 255 to 2097153 digits, all valid and with one bad symbol at the first, middle and last position; histories (consecutive calls): every ordered pair of byte values at every position of slices of length 1..9 and 16 (two base patterns) for Decode, every ordered pair of symbols at every position of digit strings of length 1..17 for Encode - counted as evaluations only; every string of length 0..%d over {0..9,'a','é'}; every byte slice of length 0..2 and (thorough: all; quick: one byte fixed to a boundary value) length 3; every single (position,symbol) substitution into digit strings of length 1..32 and BCD slices of length 1..16; distinct = distinct inputs by construction", maxLen))
 	r.Sample(map[string]any{"encode": "12a", "reference": "error"})
 	r.Sample(map[string]any{"encode": "123", "reference": "0123"})
 	r.Sample(map[string]any{"decode": "129a", "reference": "error"})
